@@ -56,8 +56,12 @@ ASSUMPTIONS = [
     "no blob belongs to two streams; no is_mine=1 blob without a stream (usage would be double-counted: ambiguous)",
     "the return value is asserted only for _clean(is_network_blob) (= number of blobs that pass deleted); "
     "clean() itself returns None and is not asserted",
-    "config: SimpleNamespace(save_blobs=True, blob_lru_cache_size=0, track_bandwidth=False, blob_storage_limit, "
-    "network_storage_limit); analytics=None",
+    "config: the real lbry.conf.Config (save_blobs=True, blob_lru_cache_size=0, track_bandwidth=False, reflect_streams=False); "
+    "the start-up limits come from a generated source (attribute, command-line arguments, environment, settings file - the "
+    "last three installed as plain mappings) and every pass sets its limits by attribute assignment or inside "
+    "update_config() as settings_set does; analytics=None",
+    "streams of kind mine_created are published through the real StreamManager.create() (real encrypted blobs of the "
+    "generated size, 1-2 data blobs); the other kinds are installed through the storage API with sparse files",
 ]
 
 BASE_TIME = 1_700_000_000
@@ -107,15 +111,25 @@ class B:
 
 
 class World:
-    def __init__(self, tmp, out):
+    def __init__(self, tmp, out, case=None):
         self.tmp, self.out = tmp, out
         self.blob_dir = os.path.join(tmp, "blobfiles")
         self.dl_dir = os.path.join(tmp, "downloads")
         os.mkdir(self.blob_dir)
         os.mkdir(self.dl_dir)
         self.db_path = os.path.join(tmp, "lbrynet.sqlite")
-        self.conf = types.SimpleNamespace(save_blobs=True, blob_lru_cache_size=0, track_bandwidth=False,
-                                          blob_storage_limit=0, network_storage_limit=0)
+        # the daemon's Config object: where a limit comes from (command line, environment, settings file, API call) and how it
+        # is changed at run time (settings_set -> update_config) is part of "all values of the limits"
+        import lbry.wallet  # noqa: F401  (before lbry.conf)
+        from lbry.conf import Config
+        self.conf = Config(data_dir=tmp, wallet_dir=tmp, download_dir=self.dl_dir, save_blobs=True, blob_lru_cache_size=0,
+                           track_bandwidth=False, reflect_streams=False)
+        self.limit_source = (case or {}).get("limit_source", "attr")
+        self.set_via = (case or {}).get("set_via", "attr")
+        if self.limit_source != "attr":
+            start = {"blob_storage_limit": 3 + (case or {}).get("start_c", 0), "network_storage_limit": 2 + (case or {}).get("start_n", 0)}
+            setattr(self.conf, self.limit_source, start)     # arguments / environment / persisted: plain mappings
+        out.label("limit_source:" + self.limit_source, "set_via:" + self.set_via)
         self.loop = _get_loop()
         self.model = {}
         self.nstreams = 0
@@ -158,6 +172,10 @@ class World:
         from lbry.blob.blob_info import BlobInfo
         from lbry.blob.blob_file import BlobFile
         from lbry.stream.descriptor import StreamDescriptor
+        if spec["kind"] == "mine_created":
+            if live:
+                return await self.publish_stream(spec)
+            spec = dict(spec, kind="mine")
         self.nstreams += 1
         n = self.nstreams
         kind = spec["kind"]
@@ -215,6 +233,32 @@ class World:
         if not sdb.finished:
             self.out.label("has:pending-sd")
 
+    async def publish_stream(self, spec):
+        """the user publishes a file through the daemon's own path (StreamManager.create): real encrypted blobs"""
+        from lbry.stream.stream_manager import StreamManager
+        self.nstreams += 1
+        n = self.nstreams
+        size = max(1, sum(b["len"] for b in spec["blobs"][:2]) - 64)     # 1-2 data blobs
+        src_dir = os.path.join(self.tmp, "src")
+        os.makedirs(src_dir, exist_ok=True)
+        path = os.path.join(src_dir, "pub%d.bin" % n)
+        with open(path, "wb") as f:
+            f.write(bytes([n % 251]) * size)
+        sm = StreamManager(self.loop, self.conf, self.bm, None, self.storage, None)
+        stream = await sm.create(path)
+        cur = asyncio.current_task()
+        for _ in range(50):
+            tasks = [t for t in asyncio.all_tasks() if t is not cur and not t.done()]
+            if not tasks:
+                break
+            await asyncio.gather(*tasks, return_exceptions=True)
+        d = stream.descriptor
+        for info in d.blobs[:-1]:
+            self.model[info.blob_hash] = B(info.blob_hash, info.length, BASE_TIME, True, True, "content", n, True, True)
+        sd_len = os.path.getsize(os.path.join(self.blob_dir, d.sd_hash))
+        self.model[d.sd_hash] = B(d.sd_hash, sd_len, BASE_TIME, True, True, "sd", n, True, True)
+        self.out.label("has:mine_created", "has:mine")
+
     async def add_network(self, spec, live):
         self.nnet += 1
         h = _h("net%d" % self.nnet)
@@ -255,7 +299,12 @@ class World:
             # content: 0 means unlimited and has its own mode, so a relative limit is at least 1 MB
             limits["abs"] = (self.resolve(limits["c"], used_c, 1), self.resolve(limits["n"], used_n, 0))
         lim_c, lim_n = limits["abs"]
-        self.conf.blob_storage_limit, self.conf.network_storage_limit = lim_c, lim_n
+        if self.set_via == "update_config":
+            with self.conf.update_config() as c:     # what jsonrpc_settings_set does
+                c.blob_storage_limit = lim_c
+                c.network_storage_limit = lim_n
+        else:
+            self.conf.blob_storage_limit, self.conf.network_storage_limit = lim_c, lim_n
         over_c = lim_c != 0 and used_c > lim_c
         over_n = used_n > lim_n
         out.label("content:" + ("unlimited" if lim_c == 0 else "over" if over_c else "within"),
@@ -354,7 +403,7 @@ class World:
 
 
 async def _run(case, out, tmp):
-    w = World(tmp, out)
+    w = World(tmp, out, case)
     await w.open()
     try:
         for s in case["streams"]:
@@ -425,14 +474,18 @@ def pass_strategy():
     return st.builds(lambda split, re_, an, as_: {"split": split, "re": re_, "add_network": an, "add_stream": as_},
                      st.booleans(), st.sampled_from([False, False, True]),
                      st.one_of(st.just([]), st.lists(blob_strategy(), min_size=0, max_size=3)),
-                     st.one_of(st.none(), st.none(), stream_strategy(["dl_file", "dl_file", "dl_nofile", "mine"])))
+                     st.one_of(st.none(), st.none(), stream_strategy(["dl_file", "dl_file", "dl_nofile", "mine", "mine_created", "mine_created"])))
 
 
 def case_strategy(tier):
-    return st.builds(lambda s, n, cl, nl, ps: {"streams": s, "network": n, "climit": cl, "nlimit": nl, "passes": ps},
-                     st.lists(stream_strategy(), min_size=0, max_size=5),
-                     st.lists(blob_strategy(), min_size=0, max_size=12),
-                     limit_strategy(), limit_strategy(), st.lists(pass_strategy(), min_size=1, max_size=3))
+    return st.builds(lambda s, n, cl, nl, ps, src, via, sc, sn: {
+        "streams": s, "network": n, "climit": cl, "nlimit": nl, "passes": ps, "limit_source": src, "set_via": via,
+        "start_c": sc, "start_n": sn},
+        st.lists(stream_strategy(), min_size=0, max_size=5),
+        st.lists(blob_strategy(), min_size=0, max_size=12),
+        limit_strategy(), limit_strategy(), st.lists(pass_strategy(), min_size=1, max_size=3),
+        st.sampled_from(["attr", "attr", "arguments", "environment", "persisted"]),
+        st.sampled_from(["attr", "update_config", "update_config"]), st.integers(0, 5), st.integers(0, 5))
 
 
 PARTS = [
@@ -440,5 +493,6 @@ PARTS = [
          essential=("content:over", "content:within", "content:unlimited", "content:at-limit", "network:over",
                     "network:within", "network:at-limit", "deleted:content", "deleted:network", "has:mine",
                     "has:mine_upd", "has:dl_file", "has:dl_nofile", "has:network", "has:pending",
-                    "added-between-passes", "content:cannot-reach-limit")),
+                    "added-between-passes", "content:cannot-reach-limit", "has:mine_created", "limit_source:arguments",
+                    "limit_source:environment", "limit_source:persisted", "set_via:update_config")),
 ]
